@@ -116,9 +116,25 @@ def check_bad_rule(ctx, rid):
     f = ctx.prog.need_func(CROP + ".Crop.check_bad")
     g = build_cfg(f.node)
     ctx.touch(f, g)
-    loads = [(n, c) for n, c, nm in all_calls(ctx, f, g) if nm == CROP + ".read_from_disk" and "result" in norm(c)]
+    def _in_try(c):
+        p_ = getattr(c, "_parent", None)
+        child = c
+        while p_ is not None and p_ is not f.node:
+            if isinstance(p_, ast.Try) and any(child is b for b in p_.body):
+                return True
+            child, p_ = p_, getattr(p_, "_parent", None)
+        return False
+    all_loads = [(n, c) for n, c, nm in all_calls(ctx, f, g) if nm == CROP + ".read_from_disk"]
+    loads = [(n, c) for n, c in all_loads if _in_try(c)] or [(n, c) for n, c in all_loads if "result" in norm(c)]
     need(len(loads) == 1, "anchor lost: check_bad result load")
     ln, lc = loads[0]
+    others = [(n, c) for n, c in all_loads if c is not lc]
+    need(len(others) == 1, "anchor lost: check_bad batch load")
+    def _target(n_):
+        return n_.ast.targets[0].id if n_.kind == "stmt" and isinstance(n_.ast, ast.Assign) and isinstance(n_.ast.targets[0], ast.Name) else None
+    RESULT, BATCH = _target(ln), _target(others[0][0])
+    need(RESULT and BATCH, "idiom changed: check_bad does not bind the loaded result / batch to names")
+    RFILE = norm(lc.args[0]) if lc.args else "?"
     # the load's failure is caught by a catch-all handler
     exc_t = [b for b, l in g.succ[ln.id] if l == "exc"]
     handlers = [g.nodes[h] for t in exc_t for h, l2 in g.succ[t] if g.nodes[t].kind == "dispatch" for h in [h] if g.nodes[h].kind == "except"]
@@ -127,7 +143,7 @@ def check_bad_rule(ctx, rid):
         rr.bad(ctx.finding(rid, f, lc, "a result that fails to load is not caught by a broad handler in check_bad: the recovery tool itself crashes on the file it is meant to discard", construct="check-bad-load-uncaught"), "unreadable caught")
         return rr
     rr.ok("check_bad: the result load sits in a handler catching every Exception")
-    rem = [(n, c) for n, c, nm in all_calls(ctx, f, g) if nm in ("os.remove", "os.unlink") and "result" in norm(c)]
+    rem = [(n, c) for n, c, nm in all_calls(ctx, f, g) if nm in ("os.remove", "os.unlink") and c.args and norm(c.args[0]) == RFILE]
     if not rem and not [1 for n, c, nm in all_calls(ctx, f, g) if nm in ("os.remove", "os.unlink", "shutil.move", "os.rename", "os.replace", "?.unlink")]:
         rr.bad(ctx.finding(rid, f, f.node, "check_bad never removes a bad result (delete_bad has no effect): an unreadable or short result keeps counting as finished, grow_missing skips it and every later reap fails on it", construct="check-bad-no-removal"), "removal exists")
         return rr
@@ -138,7 +154,7 @@ def check_bad_rule(ctx, rid):
     from_handler = any(rn.id in g.reachable(start=h.id, feasible=fl.feasible) for h in broad)
     normal_succ = [b for b, l in g.succ[ln.id] if l != "exc"]
     from_normal = any(rn.id in g.reachable(start=b, feasible=fl.feasible) for b in normal_succ)
-    lens = [t for t in g.nodes if t.kind == "test" and "len(result)" in norm(t.ast) and "len(batch)" in norm(t.ast)]
+    lens = [t for t in g.nodes if t.kind == "test" and "len(%s)" % RESULT in norm(t.ast) and "len(%s)" % BATCH in norm(t.ast)]
     if from_handler and from_normal and lens:
         rr.ok("check_bad: os.remove(result) reachable on the unreadable path and on the wrong-length path when delete_bad")
     else:
@@ -148,7 +164,7 @@ def check_bad_rule(ctx, rid):
     dec = [t for t in lens]
     if dec:
         t_ = dec[0]
-        flag = sorted({x.id for x in ast.walk(t_.ast) if isinstance(x, ast.Name)} - {"result", "batch", "len"})
+        flag = sorted({x.id for x in ast.walk(t_.ast) if isinstance(x, ast.Name)} - {RESULT, BATCH, "len"})
         # which branch of the decision leads to the removal?
         heads = [n_.id for n_ in g.nodes if n_.kind == "for"]
         to_rm = {}
@@ -174,10 +190,10 @@ def check_bad_rule(ctx, rid):
                     for l1, l2 in ((2, 2), (1, 2)):
                         def on_call(c_, ev_, st_, l1=l1, l2=l2):
                             if norm(c_.func) == "len" and len(c_.args) == 1:
-                                return l1 if norm(c_.args[0]) == "result" else l2
+                                return l1 if norm(c_.args[0]) == RESULT else l2
                             return NotImplemented
                         try:
-                            tv_ = bool(IntEval({fname: v_unread if unread else v_read, "result": (), "batch": ()}, on_call).ev(t_.ast, {}))
+                            tv_ = bool(IntEval({fname: v_unread if unread else v_read, RESULT: (), BATCH: ()}, on_call).ev(t_.ast, {}))
                         except AnalysisError:
                             tv_ = None
                         if tv_ is not None and (tv_ == bad_when) != (unread or l1 != l2):
@@ -195,9 +211,11 @@ def check_bad_rule(ctx, rid):
     if rn.id in fl2.visited:
         rr.bad(ctx.finding(rid, f, rc, "check_bad removes results although delete_bad is false", construct="check-bad-delete-false"), "delete_bad honoured")
     # the id is reported on every path that found it bad
-    apps = [n for n in g.nodes if n.kind == "stmt" and "bad_ids.append" in n.text()]
-    rets = [n for n in g.nodes if n.kind == "stmt" and isinstance(n.ast, ast.Return)]
-    if apps and rets and "bad_ids" in norm(rets[0].ast) and all(a.id in g.reachable(start=rn.id) for a in apps):
+    rets = [n for n in g.nodes if n.kind == "stmt" and isinstance(n.ast, ast.Return) and n.ast.value is not None]
+    rnames = sorted(names_in(rets[0].ast.value) - {"tuple", "list", "sorted"}) if rets else []
+    BAD = rnames[0] if len(rnames) == 1 else "?"
+    apps = [n for n in g.nodes if n.kind == "stmt" and (BAD + ".append") in n.text()]
+    if apps and rets and all(a.id in g.reachable(start=rn.id) for a in apps):
         rr.ok("check_bad reports the ids it found bad")
     else:
         rr.bad(ctx.finding(rid, f, f.node, "check_bad no longer reports the bad batch ids", construct="check-bad-report"), "ids reported")
